@@ -301,6 +301,10 @@ func (r *DeviceLocal) CleanRemoteEntityCaches(remoteAddress *model.EntityAddress
 }
 
 func (r *DeviceLocal) ProcessCmd(datagram model.DatagramType, remoteDevice api.DeviceRemoteInterface) error {
+	if datagram.Header.AddressSource == nil || datagram.Header.AddressDestination == nil {
+		return errors.New("source and destination address are required")
+	}
+
 	destAddr := datagram.Header.AddressDestination
 	localFeature := r.FeatureByAddress(destAddr)
 
